@@ -1,7 +1,8 @@
-(** C09 - property theorems (statements only; proofs are in C09/Proofs.v, C09/Cost.v, C09/Fixed.v
-    and C09/InitProofs.v). *)
+(** C09 - property theorems (statements only; proofs are in C09/Proofs.v, C09/Cost.v, C09/Fixed.v,
+    C09/InitProofs.v and C09/ExtProofs.v). *)
 From Coq Require Import List NArith Reals Floats.
-From LinfaVerif Require Import Common.Num Common.NdSum C09.Model C09.Proofs C09.Cost C09.Fixed C09.InitProofs.
+From LinfaVerif Require Import Common.Num Common.NdSum C09.Model C09.ModelExt C09.Proofs C09.Cost C09.Fixed
+  C09.InitProofs C09.ExtProofs.
 Import ListNotations.
 Local Open Scope R_scope.
 
@@ -243,3 +244,136 @@ Theorem inertia_is_mean_cost : forall (m : metric) (tol : R) (fuel k : nat)
   fit R_ops m tol fuel k inits X = Some f ->
   f_inertia f = cost R_ops m (f_centroids f) X / INR (length X).
 Proof. exact inertia_mean_cost_R. Qed.
+
+(** ---- the whole fit: restart loop, iteration budget ---- *)
+
+(** the literal model of `KMeans::fit` - restart loop around the Lloyd loop, the counter `n_iter` a
+    local of the restart body, stop on `distance < tolerance || n_iter == max_n_iterations` - returns
+    what the structured model [fit] (used by all theorems above) returns, in every arithmetic
+    (max_n_iterations >= 1 is what the parameter guard admits) *)
+Theorem fit_whole_is_fit : forall F (o : NumOps F) m tol (max : N) k inits X,
+  (1 <= max)%N -> fst (fit_whole o m tol max k inits X) = fit o m tol (N.to_nat max) k inits X.
+Proof. exact (@fit_whole_fit). Qed.
+
+(** every restart uses its own budget: the number of Lloyd iterations restart i performs is the number
+    it performs when it is the only restart (a function of its own initialisation, not of what the
+    earlier restarts did), it is at least 1 and at most max_n_iterations - in every arithmetic *)
+Theorem fit_run_uses_own_budget : forall F (o : NumOps F) m tol (max : N) k inits X,
+  (1 <= max)%N ->
+  snd (fit_whole o m tol max k inits X) = map (fun init => iters_alone o m tol max init X) inits /\
+  (forall init, snd (fit_whole o m tol max k [init] X) = [iters_alone o m tol max init X]) /\
+  Forall (fun n => 1 <= n <= max)%N (snd (fit_whole o m tol max k inits X)).
+Proof.
+  intros F o m tol max k inits X H. rewrite (fit_whole_iters o m tol max k inits X H).
+  split; [reflexivity|]. split; [intros init; exact (fit_whole_iters o m tol max k [init] X H)|].
+  apply Forall_forall. intros n Hn. apply in_map_iff in Hn as [init [<- _]].
+  exact (iters_alone_bounds o m tol max init X H).
+Qed.
+
+(** the observable form of the budget (oracle bit 2048 of C09/Corr.v): the returned centroids are
+    step^j(init) for the initialisation of one of the restarts and some 1 <= j <= max_n_iterations;
+    [iterates o n m init X] is the list [step^1 init; ...; step^n init] *)
+Theorem fit_returns_iterate_within_budget : forall F (o : NumOps F) m tol fuel k inits X f,
+  (1 <= fuel)%nat -> fit o m tol fuel k inits X = Some f ->
+  exists init, In init inits /\ In (f_centroids f) (iterates o fuel m init X).
+Proof. exact (@fit_iterate_within_budget). Qed.
+
+Theorem iterates_are_step_powers : forall F (o : NumOps F) m X n j cs,
+  length (iterates o n m cs X) = n /\
+  ((j < n)%nat -> nth_error (iterates o n m cs X) j = Some (Nat.iter (S j) (fun c => step o m c X) cs)).
+Proof. intros F o m X n j cs. exact (conj (iterates_length o m X n cs) (iterates_nth o m X n j cs)). Qed.
+
+(** restarts that all start from the same centroids (`Precomputed` with n_runs > 1) return what one
+    run returns: the number of restarts is irrelevant - in every arithmetic *)
+Theorem restarts_of_one_init : forall F (o : NumOps F) m tol fuel k init X n,
+  fit o m tol fuel k (repeat init (S n)) X = fit o m tol fuel k [init] X.
+Proof. exact (@fit_one_init). Qed.
+
+(** a fixed sequence of initialisations (n_runs restarts), a larger iteration budget: the kept inertia
+    and the L2 cost of the returned centroids do not increase *)
+Theorem restarts_cost_monotone_in_budget : forall (tol : R) (fuel fuel' : nat)
+    (inits : list (list (list R))) (X : list (list R)) (d : nat) r r',
+  (fuel <= fuel')%nat -> Forall (fun x => length x = d) X ->
+  (forall i, In i inits -> i <> [] /\ Forall (fun c => length c = d) i) ->
+  restarts R_ops L2 tol fuel inits X = Some r -> restarts R_ops L2 tol fuel' inits X = Some r' ->
+  r_inertia r' <= r_inertia r /\
+  cost R_ops L2 (r_centroids r') X <= cost R_ops L2 (r_centroids r) X.
+Proof. exact restarts_budget_R. Qed.
+
+(** the hypotheses are satisfiable and the budget theorem separates the code from the variant with one
+    counter for all restarts (binary64, evaluated): initial centroid 10, observations 0 and 2,
+    max_n_iterations = 1, two restarts.  The code: iterations [1; 1], result 4 = (0 + 2 + 10) / 3.
+    One shared counter: iterations [1; 8] - the second restart exceeds the budget - and a result below
+    1.125 that is not reachable within one step. *)
+Example fit_run_uses_own_budget_instance :
+  let run reset := restart_loop B64_ops reset 40 L2 0x1p-7%float 1 [[[10%float]]; [[10%float]]] [[0%float]; [2%float]] in
+  snd (snd (run true)) = [1%N; 1%N] /\
+  option_map (fun r => r_centroids r) (fst (run true)) = Some [[4%float]] /\
+  snd (snd (run false)) = [1%N; 8%N] /\
+  option_map (fun r => Nat.eqb (length (r_centroids r)) 1) (fst (run false)) = Some true /\
+  option_map (fun r => existsb (fun c => existsb (fun v => PrimFloat.ltb v 1.125%float) c) (r_centroids r)) (fst (run false)) = Some true.
+Proof. exact counter_instance. Qed.
+
+(** ---- k-means|| ---- *)
+
+(** rand's `gen_range(0..range)` on u64 / usize (widening multiply, rejection zone) returns a value
+    below range for every word stream (0 when the recorded words run out) *)
+Theorem gen_range_below : forall (range : N) (words : list N),
+  (0 < range)%N -> (fst (gen_below range words) < range)%N.
+Proof. intros range words H. exact (gen_below_lt range H words). Qed.
+
+(** k-means|| (init.rs k_means_para: first candidate, at most 8 rounds of independent selection with
+    probability k * d / cost against whatever numbers the per-task generators produce, candidate
+    buffer of 8 k rows, membership counts as weights, weighted k-means++ over the candidates) returns
+    exactly k centroids and each is a row of the data - in every arithmetic, for every metric, for
+    every way [round_of] of producing the per-round numbers (i.e. every task split / thread count) and
+    every first index below n *)
+Theorem para_centroids_are_data_rows : forall F (o : NumOps F) (fmt : sample_fmt F)
+    (first_of : list N -> nat -> nat * list N) (round_of : list N -> nat -> list F * list N)
+    (m : metric) (X : list (list F)) (k : nat) (words : list N),
+  (1 <= k)%nat -> (fst (first_of words (length X)) < length X)%nat ->
+  length (fst (para_init o fmt first_of round_of m X k words)) = k /\
+  forall c, In c (fst (para_init o fmt first_of round_of m X k words)) -> In c X.
+Proof. exact (@para_init_rows). Qed.
+
+(** ... with the first index drawn as rand draws it, no hypothesis on the generator is left; the same
+    for the initialisations of all restarts of one fit *)
+Theorem para_inits_are_data_rows : forall F (o : NumOps F) (fmt : sample_fmt F)
+    (round_of : list N -> nat -> list F * list N) (m : metric) (X : list (list F)) (k runs : nat) (words : list N),
+  X <> [] -> (1 <= k)%nat ->
+  length (para_inits o fmt rand_first round_of m X k runs words) = runs /\
+  forall i, In i (para_inits o fmt rand_first round_of m X k runs words) ->
+    length i = k /\ forall c, In c i -> In c X.
+Proof.
+  intros F o fmt round_of m X k runs words HX Hk.
+  split; [exact (para_inits_length o fmt rand_first round_of m X k runs words)|].
+  apply (para_inits_spec o fmt rand_first round_of m X k Hk).
+  intros w. apply rand_first_lt. destruct X; [congruence | simpl; apply Nat.lt_0_succ].
+Qed.
+
+(** a k-means|| fit returns centroids inside the bounding box of the data, for every generator
+    stream, task split and number of restarts *)
+Theorem para_fit_in_bbox : forall (fmt : sample_fmt R) (round_of : list N -> nat -> list R * list N)
+    (m : metric) (tol : R) (fuel k runs : nat) (words : list N) (X : list (list R)) (d : nat)
+    (lo hi : list R) (f : fitted),
+  X <> [] -> (1 <= k)%nat -> Forall (fun x => length x = d) X ->
+  (forall x t, In x X -> (t < d)%nat -> nth t lo 0 <= nth t x 0 <= nth t hi 0) ->
+  fit R_ops m tol fuel k (para_inits R_ops fmt rand_first round_of m X k runs words) X = Some f ->
+  forall c t, In c (f_centroids f) -> (t < d)%nat -> nth t lo 0 <= nth t c 0 <= nth t hi 0.
+Proof.
+  intros fmt round_of m tol fuel k runs words X d lo hi f HX Hk Hd HB Hf.
+  apply (fit_data_rows_in_bbox_R m tol fuel k (para_inits R_ops fmt rand_first round_of m X k runs words) X d lo hi f HX Hd);
+    [| exact HB | exact Hf].
+  intros i c Hi Hc.
+  exact (proj2 (proj2 (para_inits_are_data_rows R R_ops fmt round_of m X k runs words HX Hk) i Hi) c Hc).
+Qed.
+
+(** the executable model at binary64 with the draws of a one-thread pool: six observations on a line,
+    k = 2: all six become candidates within the rounds and the re-clustering returns rows 0 and 12 *)
+Example para_centroids_instance :
+  length (fst (para_candidates B64_ops rand_first (rayon1_round B64_ops) L2 para_ex_X 2 para_ex_words)) = 6%nat /\
+  fst (para_init B64_ops fmt64 rand_first (rayon1_round B64_ops) L2 para_ex_X 2 para_ex_words) = [[0%float]; [12%float]] /\
+  length (fst (para_init B64_ops fmt64 rand_first (rayon1_round B64_ops) L2 para_ex_X 2 para_ex_words)) = 2%nat /\
+  forallb (fun c => existsb (fun x => list_eqb f64_biteq c x) para_ex_X)
+          (fst (para_init B64_ops fmt64 rand_first (rayon1_round B64_ops) L2 para_ex_X 2 para_ex_words)) = true.
+Proof. exact para_instance. Qed.
